@@ -39,7 +39,7 @@ BOUNDS = {
     'thorough': 'same domains (they are unbounded already) with longer budgets, more operator combinations and a '
                 'larger selection grid for calendar-field laws'}
 OUTSIDE = ['calendar fields (year..weekday, date, time, replace(year=...), format, parsing): exercised only on a '
-           'concrete grid selected by symbolic indices', 'named/DST zones (yaql builds fixed offsets only)',
+           'concrete grid selected by symbolic indices', 'named/DST zones in the symbolic runs (yaql builds fixed offsets only; two host values in DST zones are on the concrete grid)',
            'leap seconds', 'overflow behaviour outside years 1..9999 and |timespan| >= 10^9 days',
            'IEEE rounding: floats are exact rationals in the symbolic run; replays on CPython use a tolerance of '
            '1 microsecond / 1e-9 relative', 'offsets with a seconds/microseconds part',
@@ -533,7 +533,10 @@ def real_datetimes():
     return [DT(1, 1, 2, tzinfo=utc), DT(1, 1, 2, 0, 0, 0, 1, tzinfo=tz.tzoffset(None, 3600)), DT(9999, 12, 30, 23, 59, 59, 999999, tzinfo=utc),
             DT(9999, 12, 30, 12, 0, 0, 7, tzinfo=tz.tzoffset(None, -5400)), DT(1970, 1, 1, tzinfo=utc), DT(1, 1, 2, 0, 0, 0, 3),
             DT(9999, 12, 30, 23, 59, 59, 999999), DT(2000, 2, 29, 23, 59, 59, 999999, tzinfo=tz.tzoffset(None, 19800)),
-            DT(1583, 1, 1, 0, 0, 0, 1, tzinfo=utc), DT(5000, 6, 15, 1, 2, 3, 456789)]
+            DT(1583, 1, 1, 0, 0, 0, 1, tzinfo=utc), DT(5000, 6, 15, 1, 2, 3, 456789),
+            # host values in zones with daylight-saving rules, shortly before a change in either direction
+            DT(2021, 3, 28, 0, 30, tzinfo=tz.tzstr('CET-1CEST,M3.5.0,M10.5.0/3')),
+            DT(2021, 11, 7, 0, 30, 0, 5, tzinfo=tz.tzstr('EST5EDT,M3.2.0,M11.1.0'))]
 
 
 def exact_us(t):
